@@ -39,8 +39,13 @@ func (g *gen) base(typ string, seq int) msgT {
 	return m
 }
 
+var pendingCtx *Ctx
+
 func (g *gen) do(ev Sx) {
 	g.evs = append(g.evs, ev)
+	if pendingCtx != nil {
+		pendingCtx.Pending(L(cfgSx(g.c), g.evs))
+	}
 	g.obs = append(g.obs, g.r.apply(ev))
 }
 
@@ -369,6 +374,7 @@ func genOneSession(rng *rand.Rand, steps int) (Sx, Sx) {
 }
 
 func genSession(c *Ctx) {
+	pendingCtx = c
 	for i := 0; i < c.N; i++ {
 		steps := 8 + c.Rng.Intn(30)
 		in, obs := genOneSession(c.Rng, steps)
